@@ -3,9 +3,11 @@
 cd "$(dirname "$0")"
 [ -x .venv/bin/python ] || ./setup.sh >/dev/null
 FROM=${1:-C00}
+bad=0
 for p in $(.venv/bin/python -c "import json; print(' '.join(c['property_id'] for c in json.load(open('MANIFEST.json'))['checks']))"); do
   [ "$p" \< "$FROM" ] && continue
   s=$(date +%s); out=$(./check $p --tier thorough 2>&1); rc=$?; e=$(date +%s)
   echo "$p exit=$rc $((e-s))s $(echo "$out" | grep -E '^\[C' | head -1)"
-  [ $rc -ne 0 ] && echo "$out" | grep -E "failed|BROKEN|UNDEC|VIOLATION|KNOWN" | head -8
+  if [ $rc -ne 0 ]; then bad=1; echo "$out" | grep -E "failed|BROKEN|UNDEC|VIOLATION|KNOWN" | head -8; fi
 done
+exit $bad
